@@ -1,7 +1,7 @@
 import Pm.InterpRef
 /-! C08 part B: the stack of execution contexts of `device.c` refines a loop-free reference program.
     Same construction as the pilot `Pm/Interp2.lean`, over the real `Stmt` / `ExecCtx` / `Action` of `Pm/Dev2.lean`. -/
-namespace Pm.Dev2
+namespace Pm.Dev2.Interp
 
 /-! ## the reference: a flat program run by one program counter -/
 
@@ -232,7 +232,7 @@ inductive Kind where
   | each (isNode : Bool) (body : List Stmt)
   | cond (wantOn : Bool) (body : List Stmt)
 
-def Stmt.kind : Stmt → Kind
+def _root_.Pm.Dev2.Stmt.kind : Stmt → Kind
   | .foreachplug b => .each false b
   | .foreachnode b => .each true b
   | .ifon b => .cond true b
@@ -240,7 +240,7 @@ def Stmt.kind : Stmt → Kind
   | _ => .leaf
 
 /-- does the statement use the `processing` flag to remember that it has been started? -/
-def Stmt.twoPhase : Stmt → Bool
+def _root_.Pm.Dev2.Stmt.twoPhase : Stmt → Bool
   | .send _ => true
   | .delay _ => true
   | _ => false
@@ -1690,8 +1690,5 @@ theorem initial_ok (R : Bool) (dp : List Plug) (script : List Stmt) (plugs : Opt
     exact ⟨bodyCtx_ok R script plugs hne hnb, by simp, by simp⟩
   · rw [abs_fresh R dp _ _ rfl rfl]; simp [bodyCtx, cont]
 
-#print axioms mstep_sim
-#print axioms refines_run
-#print axioms initial_ok
 
-end Pm.Dev2
+end Pm.Dev2.Interp
